@@ -11,6 +11,12 @@ for pid in ALL:
     if pid not in P.PROPS:
         continue
     s = P.PROPS[pid]
+    PH = {"miri_c01": "Miri on i686 and mips (32-bit usize; targeted boundary calls)", "miri_c04": "Miri on s390x and mips (NativeEndian = BigEndian executed)",
+          "miri_c16": "Miri on i686 in both arithmetic modes (overflow checks on / wrapping)", "miri_cross": "the reduced tier under Miri on mips (32-bit big-endian build target)",
+          "miri_cross_be64": "the reduced tier under Miri on s390x and mips (big-endian build targets)", "fuzz": "a libFuzzer run (fork=16) whose target applies this property's oracle to coverage-guided inputs",
+          "features_c06": "the feature-subset compiler runs and walker runs", "wrap_c16": "the same workload in a build with wrapping arithmetic"}
+    extra = [PH[p] for p in s.get("phases", {}).get("thorough", []) if p in PH and p not in s.get("phases", {}).get("quick", [])]
+    text = s["level_text"] + (" Thorough tier: 10x the sampled strata, plus " + "; ".join(extra) + "." if extra else "")
     checks.append({
         "property_id": pid,
         "quick_cmd": f"./check {pid} quick",
@@ -18,7 +24,7 @@ for pid in ALL:
         "evidence_file": f"/verif/evidence/{pid}.json",
         "replay_cmd_template": f"./check {pid} --replay {{path}}",
         "engine": "elfmon",
-        "level_claimed": {"category": s["level"], "text": s["level_text"], "design_ref": f"DESIGN.md §4 {pid}"},
+        "level_claimed": {"category": s["level"], "text": text, "design_ref": f"DESIGN.md §4 {pid}"},
         "level_note": s["level_note"],
         "technique": s["technique"],
     })
